@@ -11,6 +11,7 @@ import (
 	"github.com/reactivego/ivg"
 	"github.com/reactivego/ivg/decode"
 	"github.com/reactivego/ivg/encode"
+	"github.com/reactivego/ivg/generate"
 	"github.com/reactivego/ivg/raster/vec"
 	"github.com/reactivego/ivg/render"
 	"pgregory.net/rapid"
@@ -211,6 +212,38 @@ func checkReuse(c Case) error {
 	renderB(&zu, c)
 	if d := rast.DiffCalls(rrUsed.Calls[mark:], rrFresh.Calls); d != "" {
 		return harness.Violatef("c17/renderer-state-leak", "Renderer reused (driven directly) after history A renders B differently: %s", d)
+	}
+
+	// ---- ... and it does not depend on what another Renderer is doing meanwhile: a second
+	// Renderer (own rasteriser) has a gradient-filled path of its own open during every path of B
+	{
+		rrI := &rast.Recorder{}
+		var zi render.Renderer
+		zi.SetRasterizer(rrI, rect)
+		var by render.Renderer
+		var byR rast.Recorder
+		var g generate.Generator
+		by.SetRasterizer(&byR, image.Rect(3, 4, 40, 50))
+		g.SetDestination(&by)
+		g.Reset(ivg.ViewBox{MinX: 0, MinY: 0, MaxX: 10, MaxY: 10}, ivg.DefaultPalette)
+		hook := &ops.Recorder{Inner: &zi, NoRecord: true}
+		hook.After = func(o ops.Op) {
+			switch o.K {
+			case ops.StartPath:
+				g.SetLinearGradient(1, 2, 7, 9, generate.GradientSpreadReflect, []generate.GradientStop{
+					{Offset: 0.125, Color: color.RGBA{0x12, 0x34, 0x56, 0xff}}, {Offset: 0.375, Color: color.RGBA{0x65, 0x43, 0x21, 0xff}},
+					{Offset: 0.625, Color: color.RGBA{0x01, 0x02, 0x03, 0x04}}, {Offset: 0.875, Color: color.RGBA{0xf0, 0xe0, 0xd0, 0xff}}})
+				g.StartPath(0, 1, 1)
+				g.AbsLineTo(5, 1)
+				g.AbsLineTo(5, 5)
+			case ops.ClosePathEndPath:
+				g.ClosePathEndPath()
+			}
+		}
+		renderB(hook, c)
+		if d := rast.DiffCalls(rrI.Calls, rrFresh.Calls); d != "" {
+			return harness.Violatef("c17/renderer-depends-on-another", "a Renderer renders B differently while another Renderer has a path open: %s", d)
+		}
 	}
 
 	// ---- Renderer reused through Decode
